@@ -278,6 +278,9 @@ class C16(Check):
         where = f"{case['entry']}" if seeded else None
         cfg = case.get("config")
         np.random.seed(BASE_SEED)
+        for c_ in calls:
+            if hasattr(c_, "reset"):
+                c_.reset()  # per-history object state of the "same-object-refit" entries
         seen = {}  # key -> list of (hash, leaves-or-raise-token, global hash at call time, position)
         sink = io.StringIO()
         n = len(hist)
